@@ -325,6 +325,20 @@ CLAIMED = {
         'are the counting law, the line arithmetic and the caret bound for annotation fields. The C lexer that extracts comments from '
         'sources and scannermain\'s --warn-error exit are not exercised (lexer not buildable here).',
    ref='DESIGN.md §4 C11'),
+ 'C07': dict(
+   technique='Coq proof of the writer/reader attribute contract on lists regenerated from girwriter.py and girparser.py, of the default-value encodings and of the member length pairing + the project\'s own read/write cycle on scanner-written and shipped GIRs',
+   text='Theorems (Coq, axiom-free): every attribute name the GIR writer can write (extracted from the syntax tree of girwriter.py) is '
+        'read by girparser.py, or is derived from data that is read, or is XML syntax (C07_attribute_contract, finite, regenerated); the '
+        'encodings with defaults - readable/writable style flags, nullable/optional/allow-none per direction, direction with '
+        'caller-allocates, array zero-termination - decode to what was encoded, for all values (C07_encodings); array length indices of '
+        'structure members come back on the member they were written for (C07_member_lengths; the pairing as found is refuted by '
+        'C07_member_lengths_refuted_before_fix, fix 047a320). Tie: GIRs written by the real scanner for five generators (annotated '
+        'callables, runtime-dump worlds, structure/virtual-method worlds, declaration worlds, structure members with anonymous '
+        'unions/structures, function pointers and length-carrying arrays) and the 10 shipped tests/scanner/*-expected.gir files are read '
+        'by GIRParser and written by GIRWriter three times in a row (the project\'s own passthrough) and must stay byte-identical.',
+   note='PARTIAL: write(read(x)) = x for every GIR is validated per run, not proved; proved are the attribute contract, the '
+        'default encodings and the member pairing. Trusted: Coq kernel+VM; gen_c07.py (Python-ast walks of both files); stub lexer.',
+   ref='DESIGN.md §4 C07'),
 }
 
 PLANNED = {}
